@@ -21,7 +21,10 @@ def strategy(tier, unit):
     z = st.one_of(st.just(0.0), S.fl(-0.3, 0.3), S.fl(-0.3, 0.3))
     off = st.one_of(st.just(0.0), S.fl(-2, 2), S.fl(-2, 2))
     return st.fixed_dictionaries({
-        "tthd": S.fl(0.5, 60.0), "eta": st.one_of(S.fl(-2 * math.pi, 2 * math.pi), S.fl(-20.0, 20.0), st.sampled_from([0.0, math.pi / 2, math.pi, -math.pi / 2, 2 * math.pi])), "tilt": st.tuples(z, z, z).map(list),
+        "tthd": S.fl(0.5, 60.0), "eta": st.one_of(S.fl(-2 * math.pi, 2 * math.pi), S.fl(-20.0, 20.0), st.sampled_from([0.0, math.pi / 2, math.pi, -math.pi / 2, 2 * math.pi]),
+                        # a hair off the axes (1e-12 .. 1e-3 rad): components of the scattered direction that are tiny but not zero
+                        st.tuples(st.sampled_from([0.0, math.pi / 2, math.pi, -math.pi / 2]), S.logfl(1e-12, 1e-3), st.sampled_from([-1.0, 1.0])).map(lambda t: t[0] + t[1] * t[2])),
+        "pixel_first": st.one_of(st.none(), st.tuples(S.fl(-2000, 2000), S.fl(-2000, 2000)).map(list)), "tilt": st.tuples(z, z, z).map(list),
         "L": S.logfl(10, 1000), "py": S.logfl(0.01, 0.5), "pz": S.logfl(0.01, 0.5),
         "y0": st.one_of(S.fl(-3000, 3000), st.integers(-3000, 3000)), "z0": st.one_of(S.fl(-3000, 3000), st.integers(0, 3000)),
         "t": st.tuples(off, off, off).map(list), "wl": S.fl(0.1, 2.0), "intL": st.booleans()})
@@ -47,6 +50,25 @@ def check(case, ctx):
     t = np.array(case["t"], float) + 0.0
     v = np.array([math.cos(tth), -math.sin(tth) * math.sin(eta), math.sin(tth) * math.cos(eta)])
     Gt = O.ro((2 * math.pi / wl) * (v - np.array([1.0, 0, 0])))
+    pf = case.get("pixel_first")
+    if pf is not None:
+        # constructive direction: choose the PIXEL first, find the laboratory point it stands for (own geometry, not the
+        # library's), and derive the ray (2theta, eta) from the grain to that point; both functions must return the pixel
+        loc = np.array([0.0, py * (pf[0] - y0), pz * (pf[1] - z0)])
+        plab = np.array([float(L), 0.0, 0.0]) + R @ loc
+        r_ = plab - t
+        dist = float(np.linalg.norm(r_))
+        u = r_ / dist
+        tth_c = math.acos(max(-1.0, min(1.0, u[0])))
+        if math.radians(0.5) < tth_c < math.radians(60.0):
+            tth = tth_c
+            eta = math.atan2(-u[1], u[2])
+            v = np.array([math.cos(tth), -math.sin(tth) * math.sin(eta), math.sin(tth) * math.cos(eta)])
+            Gt = O.ro((2 * math.pi / wl) * (v - np.array([1.0, 0, 0])))
+            ctx.event("pixel-first construction")
+            pc = np.asarray(D.det_coor2(tth, eta, L, py, pz, y0, z0, R, t[0], t[1], t[2]), float)
+            ctx.near("pixel-first/det_coor2", float(np.max(np.abs(pc - np.array(pf)) / (1 + np.abs(np.array(pf))))), 1e-7, "pixel-first/det_coor2",
+                     "det_coor2 of the ray through pixel %r returns %r" % (pf, pc.tolist()))
     ctx.nontrivial(max(abs(tx), abs(ty), abs(tz)) > 0.05 and O.maxabs(t) > 0.1)
     ctx.event("tilted" if max(abs(tx), abs(ty), abs(tz)) > 0.05 else "flat")
     p1 = np.asarray(D.det_coor(Gt, math.cos(tth), wl, L, py, pz, y0, z0, R, t[0], t[1], t[2]), float)
